@@ -26,6 +26,7 @@ type Program struct {
 	errIface       *types.Interface
 	overrides      map[string]*ssa.Function
 	noMergeAll     bool
+	noMemo         bool
 	mergeableCache sync.Map
 	maxMergedPaths int
 	overlay        map[string][]byte
@@ -113,7 +114,7 @@ func LoadProgram(harnessRoot string, patterns []string, extraOverlay map[string]
 	prog, _ := ssautil.AllPackages(pkgs, ssa.InstantiateGenerics)
 	prog.Build()
 	p := &Program{prog: prog, pkgs: map[string]*ssa.Package{}, modPath: modPath, vvPath: modPath + "/pkg/zzvv",
-		overrides: map[string]*ssa.Function{}, maxMergedPaths: 200000, overlay: ov, overlayFiles: files}
+		overrides: map[string]*ssa.Function{}, maxMergedPaths: 50000, overlay: ov, overlayFiles: files}
 	for _, sp := range prog.AllPackages() {
 		p.pkgs[sp.Pkg.Path()] = sp
 	}
